@@ -544,7 +544,6 @@ func isStartTLSConn(conn net.Conn) bool {
 //@   props C04:post,pre@call
 //@   post-all
 //@   ensures __ghost("tagged") == old(__ghost("tagged"))
-//@   ensures __called("newResponseEncoder") ==> __called("responseEncoder.end")
 //@   exclude serve readCommand handleStartTLS handleAuthenticate handleLogin handleSelect handleAppend handleCopy handleSearch writeStatusResp writeCapabilityStatus writeAppendOK writeCopyOK writeESearch Bye readLine
 
 //@ func (c *Conn) writeStatusResp(tag string, statusResp *imap.StatusResponse) (err error)
